@@ -910,6 +910,15 @@ func edgeInput(seed, msg, ctx []byte) bool {
 	return false
 }
 
+// scribble overwrites a returned slice including its spare capacity: nothing the library hands out
+// may alias state that later calls depend on.
+func scribble(b []byte) {
+	b = b[:cap(b)]
+	for i := range b {
+		b[i] ^= 0xa5 + byte(i)
+	}
+}
+
 func signCase25519(t *rapid.T, s *edwards.Scheme) {
 	sub := "sign/" + s.Name
 	seed := vlib.EdgeBytes(t, 32, "seed")
@@ -923,9 +932,23 @@ func signCase25519(t *rapid.T, s *edwards.Scheme) {
 			return
 		}
 	}
-	pk := []byte(priv.Public().(ed25519.PublicKey))
-	if !bytes.Equal(pk, std[32:]) || !bytes.Equal(priv.Seed(), seed) {
+	pubRet := []byte(priv.Public().(ed25519.PublicKey))
+	seedRet := priv.Seed()
+	pk := append([]byte{}, pubRet...)
+	if !bytes.Equal(pk, std[32:]) || !bytes.Equal(seedRet, seed) {
 		if vlib.Report(t, "C05/sign/"+s.Name+"/Public-or-Seed-differs", fmt.Sprintf("seed=%x", seed)) {
+			return
+		}
+	}
+	// scribble on everything that was handed out; the key must be unaffected
+	mb, _ := priv.MarshalBinary()
+	pmb, _ := ed25519.PublicKey(pk).MarshalBinary()
+	scribble(pubRet)
+	scribble(seedRet)
+	scribble(mb)
+	scribble(pmb)
+	if !bytes.Equal(priv, std) || !bytes.Equal(priv.Public().(ed25519.PublicKey), std[32:]) || !bytes.Equal(priv.Seed(), seed) || !bytes.Equal(pk, std[32:]) {
+		if vlib.Report(t, "C05/sign/"+s.Name+"/key-aliases-returned-slice", fmt.Sprintf("seed=%x: the key changed after overwriting the slices returned by Public/Seed/MarshalBinary", seed)) {
 			return
 		}
 	}
@@ -976,6 +999,23 @@ func signCase25519(t *rapid.T, s *edwards.Scheme) {
 			return
 		}
 	}
+	// overwrite the returned signatures and sign again: still the RFC signature
+	scribble(got)
+	scribble(got2)
+	var again []byte
+	switch s {
+	case edwards.Ed25519:
+		again = ed25519.Sign(priv, msg)
+	case edwards.Ed25519ctx:
+		again = ed25519.SignWithCtx(priv, msg, cs)
+	case edwards.Ed25519ph:
+		again = ed25519.SignPh(priv, msg, cs)
+	}
+	if !bytes.Equal(again, want) {
+		if vlib.Report(t, "C05/sign/"+s.Name+"/signature-differs/after-overwriting-returned-slices", fmt.Sprintf("seed=%x msg=%x ctx=%x circl=%x want=%x", seed, msg, ctx, again, want)) {
+			return
+		}
+	}
 	if edgeInput(seed, msg, ctx) {
 		vlib.NonTrivial(sub, "edge-input", seed, msg, ctx)
 	} else {
@@ -992,9 +1032,23 @@ func signCase448(t *rapid.T, s *edwards.Scheme) {
 	priv := ed448.NewKeyFromSeed(seed)
 	a, prefix := s.SecretFromSeed(seed)
 	wantPk := s.C.Encode(s.C.ScalarMult(a, s.C.Base()))
-	pk := []byte(priv.Public().(ed448.PublicKey))
-	if len(priv) != 114 || !bytes.Equal(priv[:57], seed) || !bytes.Equal(priv[57:], wantPk) || !bytes.Equal(pk, wantPk) || !bytes.Equal(priv.Seed(), seed) {
+	pubRet := []byte(priv.Public().(ed448.PublicKey))
+	seedRet := priv.Seed()
+	pk := append([]byte{}, pubRet...)
+	if len(priv) != 114 || !bytes.Equal(priv[:57], seed) || !bytes.Equal(priv[57:], wantPk) || !bytes.Equal(pk, wantPk) || !bytes.Equal(seedRet, seed) {
 		if vlib.Report(t, "C05/sign/"+s.Name+"/public-key-differs", fmt.Sprintf("seed=%x circl=%x reference=%x", seed, []byte(priv), wantPk)) {
+			return
+		}
+	}
+	// scribble on everything that was handed out; the key must be unaffected (signing hashes priv[57:])
+	mb, _ := priv.MarshalBinary()
+	pmb, _ := ed448.PublicKey(pk).MarshalBinary()
+	scribble(pubRet)
+	scribble(seedRet)
+	scribble(mb)
+	scribble(pmb)
+	if !bytes.Equal(priv[:57], seed) || !bytes.Equal(priv[57:], wantPk) || !bytes.Equal(priv.Public().(ed448.PublicKey), wantPk) || !bytes.Equal(priv.Seed(), seed) {
+		if vlib.Report(t, "C05/sign/"+s.Name+"/key-aliases-returned-slice", fmt.Sprintf("seed=%x: the key changed after overwriting the slices returned by Public/Seed/MarshalBinary", seed)) {
 			return
 		}
 	}
@@ -1002,6 +1056,12 @@ func signCase448(t *rapid.T, s *edwards.Scheme) {
 		gpk, gsk, err := ed448.GenerateKey(bytes.NewReader(seed))
 		if err != nil || !bytes.Equal(gsk, priv) || !bytes.Equal(gpk, wantPk) {
 			if vlib.Report(t, "C05/sign/"+s.Name+"/GenerateKey-differs", fmt.Sprintf("seed=%x err=%v", seed, err)) {
+				return
+			}
+		}
+		scribble(gpk)
+		if !bytes.Equal(gsk, priv) {
+			if vlib.Report(t, "C05/sign/"+s.Name+"/key-aliases-returned-slice", fmt.Sprintf("seed=%x: GenerateKey's private key changed after overwriting its public key", seed)) {
 				return
 			}
 		}
@@ -1026,6 +1086,19 @@ func signCase448(t *rapid.T, s *edwards.Scheme) {
 	r := circlVerify(s, pk, msg, got, ctx)
 	if !r.ok || !r.okAny {
 		if vlib.Report(t, "C05/verify/"+s.Name+"/must-accept-rejected/own-signature", fmt.Sprintf("seed=%x msg=%x ctx=%x sig=%x", seed, msg, ctx, got)) {
+			return
+		}
+	}
+	scribble(got)
+	scribble(got2)
+	var again []byte
+	if s.Ph {
+		again = ed448.SignPh(priv, msg, cs)
+	} else {
+		again = ed448.Sign(priv, msg, cs)
+	}
+	if !bytes.Equal(again, want) {
+		if vlib.Report(t, "C05/sign/"+s.Name+"/signature-differs/after-overwriting-returned-slices", fmt.Sprintf("seed=%x msg=%x ctx=%x circl=%x want=%x", seed, msg, ctx, again, want)) {
 			return
 		}
 	}
